@@ -19,7 +19,7 @@ EWHOM_OPS = {"aten.neg", "aten.relu", "aten.abs"}  # elementwise f with f(s*x) =
 JOIN_OPS = {"aten.cat", "aten.stack"}
 SCALE_OPS = {"aten.mul", "aten.div"}
 COMPARE_OPS = {"aten.lt", "aten.gt", "aten.le", "aten.ge", "aten.eq", "aten.ne"}
-CONTRACT_OPS = {"aten.mm", "aten.bmm", "aten.matmul", "aten.dot"}
+CONTRACT_OPS = {"aten.mm", "aten.bmm", "aten.matmul", "aten.dot", "aten.mv"}
 REQUANT_OPS = {"aten._softmax", "aten.where"}
 PREDICATE_OPS = {"aten.is_same_size"}
 COPY_OPS = {"aten.copy_"}
